@@ -41,3 +41,49 @@ def summarise(results, show=40):
         v, ob, k, res = lst[0]
         print('  %-9s %-60s x%d  e.g. [%s] %s  %s' % (st, name, len(lst), v, ' '.join(ob.path[-6:]), ob.note))
     return fails
+
+
+def find_counterexample(engine, make_contract, variant, ob_name, ns=(1, 2, 3), per_query_ms=5000, max_queries=40,
+                        log=None):
+    """Refutation mode (DESIGN 1.5): re-generate the obligations of `variant` with every timeline length fixed
+    to n (index quantifiers unroll), solve the named clause in complete mode (MBQI), concretise the model into a
+    real pre-state + arguments, run the REAL function and re-evaluate the clause.  Returns a dict or None."""
+    import z3
+    from .solve import split_goal
+    from .concrete import model_to_desc
+    tried = 0
+    for n in ns:
+        c = make_contract(n)
+        engine.register(c, modular=False)
+        engine.cur_key = c.key
+        obs, stats = engine.run_paths(lambda ctx: c.setup(ctx, variant), c.body, c.finish)
+        cands = [o for o in obs if o.name == ob_name]
+        for ob in cands:
+            for g in split_goal(ob.goal):
+                if tried >= max_queries:
+                    return None
+                tried += 1
+                s = z3.Solver()
+                s.set('timeout', per_query_ms)
+                for h in ob.hyps:
+                    s.add(h)
+                s.add(z3.Not(g))
+                if s.check() != z3.sat:
+                    continue
+                m = s.model()
+                call = ob.call
+                try:
+                    rep = c.replay_model(engine, m, call, n)
+                except Exception as ex:     # concretisation problems are not verdicts
+                    if log:
+                        log('model could not be replayed: %r' % (ex,))
+                    continue
+                rep['bound_n'] = n
+                rep['path'] = ob.path
+                rep['clause'] = ob.name
+                if ob_name in rep['violated'] or any(k.split('.')[0] == ob_name.split('.')[0] for k in rep['violated']):
+                    rep['confirmed'] = True
+                    return rep
+                if log:
+                    log('model did not reproduce on the real code: %s -> %s' % (rep['call'], sorted(rep['violated'])))
+    return None
